@@ -11,6 +11,7 @@ All theorems are about the executable model `NV.C08.exec` / `runCmds` (NV/C08/Mo
 `sc : Scripts`, ALL fuels and ALL command lists.
 -/
 import NV.C08.Safe2
+import NV.C08.Tie
 
 namespace NV.C08
 
@@ -253,7 +254,8 @@ theorem task_no_crash (sc : Scripts) (f : Nat) (t : Task) (w : World) (hI : Worl
   (exec_good sc f t w hI ht hwf hg).nocrash
 
 /-- **no_crash.**  Over all histories: whatever top-level commands ran before, the next top-level command does not
-    reach the `crash` outcome (`remove_destructed_objects` in between included: it releases structures that no registry
+    reach the `crash` outcome - an operation issued by the master, or a backend tick calling heart_beat() in every
+    enabled object (`remove_destructed_objects` in between included: it releases structures that no registry
     points to any more, `no_dangling`). -/
 theorem no_crash (sc : Scripts) (cmds : List Cmd) (cmd : Cmd) :
     topOut sc (runCmds sc World.init cmds) cmd ≠ .crash :=
@@ -335,6 +337,19 @@ example : WorldInv (finishDestruct Core.init 0) ∧ ((finishDestruct Core.init 0
   rw [finishDestruct_eq init_inv.names h0 hd]
   simp [destroyed, deadObj]
 
+/-- `destructed_never_called` applies to that state: object 0 is allocated, destructed and not released -/
+example : (0 : Nat) < (finishDestruct Core.init 0).n ∧ ((finishDestruct Core.init 0).objs 0).destructed = true ∧
+    ((finishDestruct Core.init 0).objs 0).freed = false := by
+  have h0 : (0 : Nat) < Core.init.n := by rw [init_eq]; simp [allocCore, Core.empty]
+  have hd : (Core.init.objs 0).destructed = false := by rw [init_eq]; simp [allocCore, Core.empty]
+  rw [finishDestruct_eq init_inv.names h0 hd]
+  refine ⟨?_, by simp [destroyed, deadObj], ?_⟩
+  · show (unlinkC Core.init 0).n > 0; rw [(unlinkC_fields Core.init 0).1]; exact h0
+  · have := congrFun (unlinkC_same Core.init 0).2.2.1 0
+    simp only [freedF] at this
+    simp [destroyed, deadObj, this]
+    rw [init_eq]; simp [allocCore, Core.empty]
+
 /-- a non-trivial forest: after moving object 0 into object 1 the invariant holds and 0 is in 1's inventory -/
 example : WorldInv (relink Core.init 0 1) ∧ 0 ∈ ((relink Core.init 0 1).objs 1).contains := by
   have h0 : (0 : Nat) < Core.init.n := by rw [init_eq]; simp [allocCore, Core.empty]
@@ -365,6 +380,7 @@ example (cmds : List Cmd) :
       | .init => [.de i]
       | .mod => [.mvarg]
       | .act => [.de i]
-      | .id => [.mv i 1]) World.init cmds).c := reachable_inv _ cmds
+      | .id => [.mv i 1]
+      | .hbeat => [.de i]) World.init cmds).c := reachable_inv _ cmds
 
 end NV.C08
